@@ -27,7 +27,7 @@ func init() {
 		"fill-15", "fill-16", "fill-127", "fill-128", "fill-255", "fill-256",
 		"iter-reseek/parked-key-deleted", "iter-reseek/node-split", "iter-reseek/node-merged-away",
 		"iter-reseek/root-collapse", "iter-reseek/tree-emptied", "iter-parked-on-zero-key",
-		"iter-yields-key-inserted-beyond", "iter-exhausted-then-sticky", "gc-retention-checked", "lookup-work-checked",
+		"iter-yields-key-inserted-beyond", "iter-exhausted-then-sticky", "iter-gen-wrap", "gc-retention-checked", "lookup-work-checked",
 	}
 }
 
@@ -148,6 +148,7 @@ type tIter struct {
 	// what happened to the parked position since the previous yield (probes only)
 	fDeleted, fSplit, fGone, fCollapse, fEmptied bool
 	insertedBeyond                               int // a position inserted beyond parkPos since creation, or -1
+	modsAtLastNext                               int // w.structMods at the previous Next (or at creation)
 }
 
 func (it *tIter) dir() string {
@@ -184,6 +185,8 @@ type treeW struct {
 	ev int
 	// instrumentation
 	cmpN, cmpLimit int
+	structMods     int // effective inserts + deletes so far (each is one structural modification)
+	wrapTarget     int // 0, or the power of two the run will make the modification count between two Next calls
 	// the stored keys the comparator was shown during the current Get/Contains
 	lookupKey    int
 	lookupKeySet bool
@@ -379,6 +382,15 @@ func treeWorld(r *R) {
 		}
 	}
 	w.checkAll = r.Focus == "C03"
+	if r.Focus == "C02" {
+		// rarely: make the modification count between two Next calls of one iterator a power of two
+		switch c := r.Choose(64, "gen-wrap-plan"); {
+		case c >= 62 && r.Tier == "thorough", c == 63:
+			w.wrapTarget = 65536
+		case c >= 54:
+			w.wrapTarget = 256
+		}
+	}
 	if !w.isSet {
 		if r.Focus == "C03" {
 			w.gcRun = r.Choose(4, "gcrun") == 3
@@ -955,6 +967,9 @@ func (w *treeW) doPut(h, pos, rep int) {
 	w.holders[h].put(k, v)
 	w.end()
 	was, old := w.m.put(pos, rep, v, w.ev)
+	if !was {
+		w.structMods++
+	}
 	if w.tr {
 		w.r.Logf("#%d holder %d Put(%d) [pos %d]%s", w.ev, h, k, pos, map[bool]string{true: " (overwrites)", false: ""}[was])
 	}
@@ -983,6 +998,9 @@ func (w *treeW) doDel(h, pos, rep int) {
 	w.holders[h].del(k)
 	w.end()
 	was, old := w.m.del(pos)
+	if was {
+		w.structMods++
+	}
 	if w.tr {
 		w.r.Logf("#%d holder %d Delete(%d) [pos %d]%s", w.ev, h, k, pos, map[bool]string{true: "", false: " (absent)"}[was])
 	}
@@ -1333,6 +1351,7 @@ func (w *treeW) iterNew(h int) {
 	it.next = w.holders[h].iter(useIt, it.lo, it.hi, it.rev)
 	w.end()
 	it.lastEv = w.ev
+	it.modsAtLastNext = w.structMods
 	if it.rev {
 		it.lastPos = it.maxPos + 1
 	} else {
@@ -1491,6 +1510,7 @@ func (w *treeW) iterNext(slot int) {
 		it.insertedBeyond = -1
 	}
 	it.lastPos, it.lastEv = g, w.ev
+	it.modsAtLastNext = w.structMods
 	w.park(slot)
 }
 
@@ -1543,6 +1563,11 @@ func (w *treeW) iterPhaseStep() {
 	}
 	c := r.Choose(10, "iterstep")
 	slot := w.pickIter()
+	if w.wrapTarget > 0 && !w.iters[slot].done && r.Choose(16, "gen-wrap") == 15 {
+		w.genWrap(slot)
+		w.wrapTarget = 0 // once per run: it costs as much as the whole rest of the history
+		return
+	}
 	switch {
 	case c < 4 || w.iters[slot].done:
 		w.iterNext(slot)
@@ -1550,6 +1575,41 @@ func (w *treeW) iterPhaseStep() {
 		w.mutateNear(slot)
 	default:
 		w.sideOp()
+	}
+}
+
+// genWrap makes the number of structural modifications between two Next calls of one iterator
+// exactly a power of two (256 or 65536), the parked key being deleted among them: a change
+// detector that keeps only the low bits of a modification counter, or one that compares sizes,
+// sees "nothing happened".
+func (w *treeW) genWrap(slot int) {
+	r := w.r
+	it := w.iters[slot]
+	target := w.wrapTarget
+	since := w.structMods - it.modsAtLastNext
+	if since >= target {
+		return
+	}
+	r.Probe("iter-gen-wrap")
+	if it.parkPos >= 0 && w.m.has(it.parkPos) && target-since >= 2 {
+		w.doDel(w.holder(), it.parkPos, 0)
+	}
+	// a position that is absent now and not the parked one: toggled on and off
+	far := -1
+	for p := w.P - 1; p >= 0; p-- {
+		if !w.m.has(p) && p != it.parkPos {
+			far = p
+			break
+		}
+	}
+	if far < 0 {
+		return
+	}
+	for w.structMods-it.modsAtLastNext < target && !r.Failed() {
+		w.toggle(far)
+	}
+	if !r.Failed() {
+		w.iterNext(slot)
 	}
 }
 
